@@ -23,6 +23,8 @@ Inductive case :=
 (* a FunctionBody through the other entry points: generating tree as function expression and as
    declaration in a program; what parser.ParseFunction(params, body) and ParseFile("function f(params){ body }")
    returned; whether typeof new Function(params, body) and typeof Function(params, body) gave "function" *)
+(* a text that ES5 rejects (regression case of a repaired over-acceptance): what otto returned *)
+| CReject (obs : option tree)
 | CFun (gen genDecl : tree) (viaParseFunction viaDecl : option tree) (newFunction callFunction : bool).
 
 Definition otree_eqb := option_eqb tree_eqb.
@@ -35,8 +37,8 @@ Definition olz_eqb := option_eqb zlist_eqb.
 (* finding classes (open): 1 = relational operators associate to the right
    2 = hex / legacy-octal literal >= 2^63   3 = \\uD800-\\uDFFF escapes become U+FFFD
    (4 = octal escape above \\377 and 5 = backslash + LS/PS were repaired in /repo 96a7b64)
-   11-14 = pinned witnesses (comment with line terminator, numeric property name,
-   no-in relational operand, detached regexp flags).  Classes 6-10 were repaired in
+   11, 12, 14 = pinned witnesses (comment with line terminator, numeric property name,
+   detached regexp flags).  Classes 6-10 and 13 (no-in relational operand) were repaired in
    /repo; their witnesses are now CProg regression cases that accept only the ES5 tree. *)
 Definition verdict (c : case) : Z * Z :=
   match c with
@@ -46,6 +48,7 @@ Definition verdict (c : case) : Z * Z :=
   | CStr body obs => judge olz_eqb obs (sv sv_model body) (sv sv_spec body) 3
   | CProg gen obs => judge otree_eqb obs (Some gen) (Some gen) 0
   | CPin cls spec pinned obs => judge otree_eqb obs pinned (Some spec) cls
+  | CReject obs => judge otree_eqb obs None None 0
   | CFun gen genDecl pf decl c1 c2 =>
       judge Bool.eqb (otree_eqb pf (Some gen) && otree_eqb decl (Some genDecl) && c1 && c2) true true 0
   end.
